@@ -203,9 +203,25 @@ def is_char_prefix(seq, enc):
         return False
 
 
+TABLE_SET = frozenset(TABLE_KEYS)
+# every proper prefix (the empty one included) of every table sequence, computed here from the tables
+PROPER_PREFIXES = frozenset(k[:i] for k in TABLE_KEYS for i in range(len(k)))
+MAXLEN = max(len(k) for k in TABLE_KEYS)
+
+
 def is_table_prefix(seq):
-    s = bytes(seq)
-    return any(len(k) > len(s) and k.startswith(s) for k in TABLE_KEYS)
+    """seq is a proper prefix of a longer recognised sequence"""
+    return bytes(seq) in PROPER_PREFIXES
+
+
+def par_map(fn, items, procs, chunksize=2000):
+    """map over forked worker processes (order preserved); everything random stays in the parent"""
+    import multiprocessing
+    items = list(items)
+    if procs <= 1 or len(items) < 4 * chunksize:
+        return [fn(i) for i in items]
+    with multiprocessing.get_context("fork").Pool(procs) as pool:
+        return pool.map(fn, items, chunksize=chunksize)
 
 
 def scalar_boundaries():
